@@ -115,8 +115,21 @@ uint8_t* X_realloc(uint8_t* q, uint64_t n) { uint8_t* p = realloc(q, n); __CPROV
 void X_free(uint8_t* p) { free(p); }
 
 /* exception objects: allocated, message dropped */
+#ifdef VERIF_EXC_POOL
+/* opt-in (gen_defs=['VERIF_EXC_POOL=<n>']): exception objects come from a static pool of n slots instead of malloc, so that
+ * cbmc --memory-leak-check reports only allocations made by the code under test (the model never destroys a caught exception
+ * object). Pool exhaustion / oversize object is a reported bound failure. */
+static uint64_t verif_exc_pool[VERIF_EXC_POOL][16]; static uint32_t verif_exc_pool_n;
+uint8_t* X___cxa_allocate_exception(uint64_t n) {
+  __CPROVER_assert(n <= sizeof(verif_exc_pool[0]) && verif_exc_pool_n < VERIF_EXC_POOL, "BOUND: exception pool (VERIF_EXC_POOL slots of 128 bytes)");
+  __CPROVER_assume(n <= sizeof(verif_exc_pool[0]) && verif_exc_pool_n < VERIF_EXC_POOL);
+  return (uint8_t*)verif_exc_pool[verif_exc_pool_n++];
+}
+void X___cxa_free_exception(uint8_t* p) { (void)p; }
+#else
 uint8_t* X___cxa_allocate_exception(uint64_t n) { uint8_t* p = malloc(n ? n : 1); __CPROVER_assume(p != 0); return p; }
 void X___cxa_free_exception(uint8_t* p) { free(p); }
+#endif
 /* std exception objects carry a valid vptr (Itanium layout: [-2] offset-to-top, [-1] typeinfo, [0] D1, [1] D0, [2] what) so
  * that `catch (const std::exception& e) { e.what(); }` works in the model; what() text is the fixed string "what". */
 uint8_t* verif_std_exc_what(uint8_t* self) { (void)self; return (uint8_t*)"what"; }
